@@ -639,3 +639,49 @@ package router
 //@   requires p.scionLayer.pathPool != nil ==> len(p.scionLayer.pathPool) == 4 && p.scionLayer.pathPoolRaw != nil && typeis(p.scionLayer.pathPoolRaw, *path.rawPath) && typeis(p.scionLayer.pathPool[0], empty.Path) && typeis(p.scionLayer.pathPool[1], *scion.Raw) && asptr(p.scionLayer.pathPool[1], *scion.Raw) != nil && typeis(p.scionLayer.pathPool[2], *onehop.Path) && asptr(p.scionLayer.pathPool[2], *onehop.Path) != nil && typeis(p.scionLayer.pathPool[3], *epic.Path) && asptr(p.scionLayer.pathPool[3], *epic.Path) != nil
 //@   # the receiver hands over packets fresh from Packet.reset: egress is zero, and interface 0 (the internal link) always exists
 //@   requires p.d.interfaces[0] != nil && pkt.egress == 0
+
+//@ # ---- C09: no SCMP error in response to an SCMP error
+//@ # (the layer following the last decoded one is a pure projection of that layer)
+//@ spec func nextLT(l gopacket.DecodingLayer) gopacket.LayerType uninterpreted
+//@ iface gopacket.DecodingLayer.NextLayerType
+//@   modifies nothing
+//@   ensures result == nextLT(self)
+//@ # building the reply packet (reversed path, addresses, quote, checksum, authenticator) is not interpreted
+//@ func (*slowPathPacketProcessor).prepareSCMP
+//@   trusted
+//@   # assumed frame: the packet (fields and bytes) and scratch buffers of the processor, never the processor's pointers
+//@   modifies *p.pkt, *p.pkt.buffer, arr(p.pkt.RawPacket), arr(p.macInputBuffer), scmpPrepared
+//@   gset scmpPrepared := scmpPrepared + 1
+//@ # when the upper layer of the offending packet is SCMP, a reply is built only if its header decodes (4 bytes) and
+//@ # its type is informational (> 127): everything else is dropped with an error before prepareSCMP runs
+//@ ghost var scmpPrepared int
+//@ func (*slowPathPacketProcessor).packSCMP
+//@   props C09
+//@   requires p != nil && p.lastLayer != nil && p.pkt != nil
+//@   # what the slow path asks for is what the fast path detected: type and code of an error are those of the slow-path
+//@   # request, and the message body carries the request's pointer resp. this router's ISD-AS and the interfaces concerned
+//@   requires isError ==> slowPathType(typ) == p.pkt.slowPathRequest.spType && code == p.pkt.slowPathRequest.code
+//@   requires isError && typ == slayers.SCMPTypeParameterProblem ==> typeis(scmpP, *slayers.SCMPParameterProblem) && asptr(scmpP, *slayers.SCMPParameterProblem).Pointer == p.pkt.slowPathRequest.pointer
+//@   requires isError && typ == slayers.SCMPTypeExternalInterfaceDown ==> typeis(scmpP, *slayers.SCMPExternalInterfaceDown) && asptr(scmpP, *slayers.SCMPExternalInterfaceDown).IA == p.d.localIA && asptr(scmpP, *slayers.SCMPExternalInterfaceDown).IfID == uint64(p.pkt.egress)
+//@   requires isError && typ == slayers.SCMPTypeInternalConnectivityDown ==> typeis(scmpP, *slayers.SCMPInternalConnectivityDown) && asptr(scmpP, *slayers.SCMPInternalConnectivityDown).IA == p.d.localIA && asptr(scmpP, *slayers.SCMPInternalConnectivityDown).Ingress == uint64(p.ingressFromLink) && asptr(scmpP, *slayers.SCMPInternalConnectivityDown).Egress == uint64(p.pkt.egress)
+//@   requires !isError ==> typ == slayers.SCMPTypeTracerouteReply && code == 0
+//@   let pld = layerPld[p.lastLayer]
+//@   ensures old(nextLT(p.lastLayer) == slayers.LayerTypeSCMP && (len(pld) < 4 || pld[0] < 128)) ==> result != nil && scmpPrepared == old(scmpPrepared)
+
+//@ # decoding of the offending packet: not interpreted here (C08 covers it on the fast path); it returns a layer on success
+//@ # (curSlow names the slow-path processor whose layers are being decoded)
+//@ ghost var curSlow *slowPathPacketProcessor
+//@ func decodeLayers
+//@   trusted
+//@   ensures result1 == nil ==> result0 != nil
+//@   # a decoded SCION layer holds a path object, never a typed nil pointer (path pool / path.NewPath)
+//@   ensures result1 == nil && typeis(curSlow.scionLayer.Path, *epic.Path) ==> asptr(curSlow.scionLayer.Path, *epic.Path) != nil
+//@ func (*slowPathPacketProcessor).handleSCMPTraceRouteRequest
+//@   props C09
+//@   requires p != nil && p.lastLayer != nil && p.pkt != nil && p.d != nil
+//@ func (*slowPathPacketProcessor).processPacket
+//@   props C09
+//@   callmod decodeLayers: p.scionLayer, p.hbhLayer, p.e2eLayer
+//@   requires p != nil && p == curSlow && pkt != nil && pkt.Link != nil && p.d != nil
+//@   # the slow-path requests the fast path produces (C04-C06, C10-C13): router alerts and four SCMP error types
+//@   requires pkt.slowPathRequest.spType == slowPathRouterAlertIngress || pkt.slowPathRequest.spType == slowPathRouterAlertEgress || pkt.slowPathRequest.spType == 1 || pkt.slowPathRequest.spType == 4 || pkt.slowPathRequest.spType == 5 || pkt.slowPathRequest.spType == 6
